@@ -28,7 +28,7 @@ var ctxbg = context.Background()
 func TestMain(m *testing.M) {
 	evid.Main(m, prop, "exploration",
 		"a case = (generated world as in C05, sequential arrival schedule with storage arrivals S(b) before index deliveries X(b) in dependency/reverse/random order, coupled/storage-first/mixed, optional duplicate deliveries, "+
-			"live configuration in {index+corpus attached from the start, index without corpus}, sorted back end in {memory, leveldb, kvfile, sqlite}, prefix k of the schedule). After every delivery and quiescence the rows are copied into a fresh memory KV, "+
+			"live configuration in {index+corpus attached from the start, index without corpus}, sorted back end in {memory} (quick tier) or {memory, leveldb, kvfile, sqlite} (thorough tier), prefix k of the schedule). After every delivery and quiescence the rows are copied into a fresh memory KV, "+
 			"a fresh index.New (+KeepInMemory) is opened on the copy and a fixed battery of exported query methods is evaluated on both and compared answer by answer: GetBlobMeta, IsDeleted (index and corpus), KeyId, GetFileInfo, GetDirMembers/GetDirChildren/GetParentDirs, GetWholeRef, EdgesTo, ExistingFileSchemas, "+
 			"AppendClaims x signer/attr filters, PermanodeAttrValue/AppendPermanodeAttrValues/PermanodeHasAttrValue at {zero, each claim date, +-1ns} x signer filters, PermanodeModtime/AnyTime/Time, ForeachClaim(Back), PathsLookup/PathLookup/PathsOfSignerTarget, GetRecentPermanodes, PermanodeOfSignerAttrValue, SearchPermanodesWithAttr, "+
 			"the sorted permanode enumerations, EnumerateBlobMeta/CamliBlobs; the needs cache of the reopened index (VerifPending) must equal what the missing| rows say and never exceed the running one. Absolute anchor at the last prefix: IsDeleted and GetBlobMeta of every ref agree with the harness's world model. "+
@@ -44,7 +44,13 @@ func newKV(t *rapid.T, backend string) (kv sorted.KeyValue, cleanup func()) {
 	if backend == "memory" {
 		return sorted.NewMemoryKeyValue(), func() {}
 	}
-	dir, err := os.MkdirTemp("", "verif-c06-")
+	// file-backed KVs fsync on every commit: keep them on tmpfs when there is one,
+	// so that a loaded disk does not dominate the run time.
+	base := ""
+	if st, err := os.Stat("/dev/shm"); err == nil && st.IsDir() {
+		base = "/dev/shm"
+	}
+	dir, err := os.MkdirTemp(base, "verif-c06-")
 	if err != nil {
 		t.Fatalf("C06 infrastructure: %v", err)
 	}
@@ -92,12 +98,14 @@ func render(ms []mismatch) string {
 }
 
 func TestLiveVsReopened(t *testing.T) {
-	evid.Check(t, 250, 1200, func(t *rapid.T) {
+	evid.Check(t, 250, 1500, func(t *rapid.T) {
 		w := vworld.Draw(t, worldCfg)
 		arriving := w.Arriving()
 		ev, class := vworld.DrawSequential(t, w, arriving, true)
 		withCorpus := rapid.IntRange(0, 3).Draw(t, "withCorpus") != 0
-		backends := []string{"memory", "memory", "memory", "memory", "memory", "memory", "memory", "leveldb", "kvfile", "sqlite"}
+		// quick tier: memory only (file-backed KVs are cheap on an idle machine but
+		// took minutes under load); thorough: all four back ends.
+		backends := []string{"memory"}
 		if evid.Thorough() {
 			backends = []string{"memory", "memory", "memory", "leveldb", "kvfile", "sqlite"}
 		}
